@@ -77,6 +77,7 @@ struct _attach_op_base<Receiver>::type {
     // try to increment the refcount from 1 to 2
     std::size_t expected{1};
     UNIFEX_VERIF_YIELD("scope.at_cas");
+    UNIFEX_VERIF_YIELD("future.att_req_cas");
     if (!refcount_.compare_exchange_strong(
             expected, 2, std::memory_order_relaxed)) {
       // we didn't get to increment from one to two so either the count was
@@ -89,6 +90,7 @@ struct _attach_op_base<Receiver>::type {
     }
 
     UNIFEX_VERIF_YIELD("scope.at_stop");
+    UNIFEX_VERIF_YIELD("future.att_req_stop");
     stopSource_.request_stop();
 
     if (auto receiver = try_complete()) {
@@ -99,6 +101,7 @@ struct _attach_op_base<Receiver>::type {
   Receiver* try_complete() noexcept {
     // decrement refcount and check the old count
     UNIFEX_VERIF_YIELD("scope.at_fsub");
+    UNIFEX_VERIF_YIELD("future.att_try");
     if (refcount_.fetch_sub(1, std::memory_order_acq_rel) == 1) {
       // the old count was one so we've won the race to be the completer
       receiverCallback_.destruct();
